@@ -892,27 +892,42 @@ fn run_case(
                 tag = "record-granular-prefix";
             } else {
                 tag = "different";
-                // A sequence: is one of its steps alone enough for exactly this observation?
-                // Then the others were no-ops or harmless, and the case is that step's.
+                // A sequence: drop every step that is not needed for exactly this observation
+                // (no-ops, harmless steps); the case belongs to the steps that remain.
                 if damage.len() > 1 {
-                    for d in damage.clone().iter() {
-                        let mut alone = pristine_bytes.to_vec();
-                        d.apply(&mut alone);
-                        if alone == pristine_bytes {
-                            continue;
+                    let mut kept: Vec<Damage> = damage.clone();
+                    let mut i = 0;
+                    while kept.len() > 1 && i < kept.len() {
+                        let mut trial = kept.clone();
+                        trial.remove(i);
+                        let mut b = pristine_bytes.to_vec();
+                        for d in trial.iter() {
+                            d.apply(&mut b);
                         }
-                        std::fs::write(work.join(target), &alone).expect("write damaged file");
-                        exec::quiet_panics(true);
-                        let r1 = catch_unwind(AssertUnwindSafe(|| observe(g, kind, work, target, scratch)));
-                        exec::quiet_panics(false);
-                        if let Ok(Ok(o1)) = r1 {
-                            if o1 == obs {
-                                region = region_for(d);
-                                damage = vec![d.clone()];
-                                bytes = alone;
-                                break;
+                        let mut same = false;
+                        if b != pristine_bytes {
+                            std::fs::write(work.join(target), &b).expect("write damaged file");
+                            exec::quiet_panics(true);
+                            let r1 = catch_unwind(AssertUnwindSafe(|| observe(g, kind, work, target, scratch)));
+                            exec::quiet_panics(false);
+                            if let Ok(Ok(o1)) = r1 {
+                                same = o1 == obs;
                             }
                         }
+                        if same {
+                            kept = trial;
+                            bytes = b;
+                            i = 0;
+                        } else {
+                            i += 1;
+                        }
+                    }
+                    if kept.len() < damage.len() {
+                        let mut regs: Vec<&'static str> = kept.iter().map(&region_for).collect();
+                        regs.sort();
+                        regs.dedup();
+                        region = if regs.len() == 1 { regs[0] } else { "several-regions" };
+                        damage = kept;
                     }
                 }
                 // where do they first differ?
